@@ -323,8 +323,10 @@ def run_property(pid, tier, seed, relock=False, verbose=False):
         },
         'assumptions': props.GLOBAL_ASSUMPTIONS + sorted(assumptions),
     }
-    os.makedirs(os.path.join(HERE, 'evidence'), exist_ok=True)
-    json.dump(ev, open(os.path.join(HERE, 'evidence', pid + '.json'), 'w'), indent=1, default=str)
+    # runs against another checkout (VK_REPO, used to evaluate seeded changes) do not overwrite the evidence of /repo
+    evdir = os.path.join(HERE, 'evidence') if os.path.realpath(REPO) == '/repo' else os.path.join(HERE, 'out', 'evidence_other')
+    os.makedirs(evdir, exist_ok=True)
+    json.dump(ev, open(os.path.join(evdir, pid + '.json'), 'w'), indent=1, default=str)
     status = 'OK' if not new_violations and not undecided and not vacuous else ('VIOLATED' if new_violations else 'UNDECIDED')
     print('%s property=%s tier=%s obligations=%d discharged=%d bounded=%d degraded=%d wall=%.1fs' % (
         status, pid, tier, n_obl, n_dis, bounded['evaluations'], len(degraded), wall))
